@@ -123,30 +123,49 @@ def cleanup (cap : Nat) : Nat → Nat → (Nat → Option Elem) → Int → (Nat
 /-- The chain's `AddItem` (Blockchain.AddBlock: index must be height+1, block must verify). -/
 def accepts (height : Nat) (b : Elem) : Bool := b.ok && b.idx == height + 1
 
+/-- queue.go:93 `var lastHeight = bq.chain.Height()` -/
+def start (s : State) : State := { s with lastHeight := s.height, pc := .wait }
+
+/-- queue.go:95-98 `_, ok := <-bq.checkBlocks` (a buffered signal is received before the close is seen). -/
+def wake (s : State) : State :=
+  if s.signal then { s with signal := false, pc := .top }
+  else if s.discarded then { s with pc := .done }
+  else s
+
+/-- queue.go:100 `h := bq.chain.Height()` (outside the lock). -/
+def readH (s : State) : State := { s with pc := .haveH s.height }
+
+/-- queue.go:101-116: `pos := pos(h+1)`; lock; `b := queue[pos]`; clean-up loop; unlock;
+`lastHeight = h`; `if b == nil break`. -/
+def lockSection (s : State) (h : Nat) : State :=
+  let pos := posOf s.cap (h + 1)
+  let r := cleanup s.cap (h - s.lastHeight) s.lastHeight s.ring s.len
+  { s with ring := r.1, len := r.2, lastHeight := h,
+           pc := match s.ring pos with
+                 | none => .wait
+                 | some b => .holding b pos }
+
+/-- queue.go:119 `err := bq.chain.AddItem(b)` (the error is only logged). -/
+def addItem (s : State) (b : Elem) (pos : Nat) : State :=
+  { s with height := if accepts s.height b then s.height + 1 else s.height,
+           log := s.log ++ [.add b (accepts s.height b)],
+           pc := .added b pos }
+
+/-- queue.go:132-137: lock; `len--`; `if queue[pos] == b { queue[pos] = nil }`; unlock. -/
+def finish (s : State) (b : Elem) (pos : Nat) : State :=
+  { s with len := s.len - 1,
+           ring := if s.ring pos = some b then setSlot s.ring pos none else s.ring,
+           pc := .top }
+
 /-- One step of the `Run` goroutine. -/
 def runStep (s : State) : State :=
   match s.pc with
-  | .init => { s with lastHeight := s.height, pc := .wait }
-  | .wait =>
-    if s.signal then { s with signal := false, pc := .top }
-    else if s.discarded then { s with pc := .done }
-    else s
-  | .top => { s with pc := .haveH s.height }
-  | .haveH h =>
-    let pos := posOf s.cap (h + 1)
-    let b := s.ring pos
-    let r := cleanup s.cap (h - s.lastHeight) s.lastHeight s.ring s.len
-    match b with
-    | none => { s with ring := r.1, len := r.2, lastHeight := h, pc := .wait }
-    | some b => { s with ring := r.1, len := r.2, lastHeight := h, pc := .holding b pos }
-  | .holding b pos =>
-    if accepts s.height b then
-      { s with height := s.height + 1, log := s.log ++ [.add b true], pc := .added b pos }
-    else { s with log := s.log ++ [.add b false], pc := .added b pos }
-  | .added b pos =>
-    { s with len := s.len - 1,
-             ring := if s.ring pos = some b then setSlot s.ring pos none else s.ring,
-             pc := .top }
+  | .init => start s
+  | .wait => wake s
+  | .top => readH s
+  | .haveH h => lockSection s h
+  | .holding b pos => addItem s b pos
+  | .added b pos => finish s b pos
   | .done => s
 
 /-- A block added to the chain by another writer. -/
